@@ -262,7 +262,11 @@ def run_case(c, ns):
             from bisturi.pattern_matching import Any, filter as pfilter
             p = cls()
             for n, v in c["pattern"]:
-                setattr(p, n, Any() if (isinstance(v, dict) and v.get("any")) else build(v, ns))
+                if isinstance(v, dict) and isinstance(v.get("any"), dict):
+                    # a conditional placeholder: Any(startswith=.., endswith=.., contains=..)
+                    setattr(p, n, Any(**{kk: bytes.fromhex(x) for kk, x in v["any"].items()}))
+                else:
+                    setattr(p, n, Any() if (isinstance(v, dict) and v.get("any")) else build(v, ns))
             out = {}
             try:
                 out["pattern"] = p.as_regular_expression().pattern.hex()
